@@ -49,7 +49,7 @@ func newWriterLoop(c *kit.Ctx, m *storeModel, w *pointWriter) *writerLoop {
 	// need them.
 	wl.anchor = w.Exec.Call
 	// delta: the uint32 local handed to the hash propagation entry
-	wl.hm = newHashModel(c, m)
+	wl.hm = tryHashModel(c, m)
 	for _, g := range []*kit.Func{w.F, w.Body} {
 		for _, call := range g.AllCalls(true) {
 			if cf := g.CalleeFunc(call); cf != nil && wl.hm.isEntry(cf) {
